@@ -130,17 +130,7 @@ impl Run {
     let seed = std::env::var("VERIF_SEED").ok().and_then(|s| s.parse::<i64>().ok()).unwrap_or(0);
     // Panics inside the *subject* are caught by the engines with catch_unwind; keep the default
     // hook quiet so millions of expected panics do not flood stderr.
-    std::panic::set_hook(Box::new(|info| {
-      let loc = info
-        .location()
-        .map(|l| {
-          let f = l.file();
-          let f = f.strip_prefix("/repo/").unwrap_or(f);
-          format!("{}:{}", f, l.line())
-        })
-        .unwrap_or_else(|| "?".to_string());
-      LAST_PANIC_LOC.with(|c| *c.borrow_mut() = loc);
-    }));
+    install_quiet_panic_hook();
     Run {
       id: id.to_string(),
       tier,
@@ -321,4 +311,19 @@ pub fn guarded<T>(f: impl FnOnce() -> T) -> Result<T, String> {
       Err(format!("{loc}: {msg}"))
     }
   }
+}
+
+/// Panics inside the subject are caught by the engines; the hook only records the location.
+pub fn install_quiet_panic_hook() {
+  std::panic::set_hook(Box::new(|info| {
+    let loc = info
+      .location()
+      .map(|l| {
+        let f = l.file();
+        let f = f.strip_prefix("/repo/").unwrap_or(f);
+        format!("{}:{}", f, l.line())
+      })
+      .unwrap_or_else(|| "?".to_string());
+    LAST_PANIC_LOC.with(|c| *c.borrow_mut() = loc);
+  }));
 }
